@@ -559,3 +559,9 @@ Ltac canon_cmp_in H := rewrite ?Z.gtb_ltb, ?Z.geb_leb in H.
 Lemma pair_match_eta {A B C} (e : A * B) (f : A -> B -> C) : (let '(x, y) := e in f x y) = f (fst e) (snd e).
 Proof. destruct e; reflexivity. Qed.
 Ltac step_pairs_eta := rewrite ?pair_match_eta; cbv zeta; cbn [fst snd].
+
+(* the condition "i is positive" of a downward loop, in any of its source spellings (`i > 0`, `0 < i`, `i >= 1`, `1 <= i`) *)
+Lemma leb_1_of_nat a : (1 <=? Z.of_nat a) = (0 <? a)%nat.
+Proof. destruct (Z.leb_spec 1 (Z.of_nat a)), (Nat.ltb_spec 0 a); try reflexivity; lia. Qed.
+Ltac pos_cond := rewrite ?Z.gtb_ltb, ?Z.geb_leb; first [rewrite ltb_0_of_nat | rewrite leb_1_of_nat].
+Ltac pos_cond_in H := rewrite ?Z.gtb_ltb, ?Z.geb_leb in H; first [rewrite ltb_0_of_nat in H | rewrite leb_1_of_nat in H].
